@@ -827,6 +827,21 @@ func writeBaselineSigs(w *World, path string) error {
 	return os.WriteFile(path, b, 0o644)
 }
 
+func dropAccessors(xs []string) []string {
+	out := []string{}
+	for _, x := range xs {
+		n := x
+		if i := strings.LastIndexAny(n, ".)"); i >= 0 {
+			n = n[i+1:]
+		}
+		if strings.HasPrefix(n, "Get") || strings.HasPrefix(n, "Is") || strings.HasPrefix(n, "Has") || n == "Type" || n == "Size" || n == "String" || n == "Error" || n == "ID" || n == "Name" || n == "Len" {
+			continue
+		}
+		out = append(out, x)
+	}
+	return out
+}
+
 func eqSet(a, b []string) bool {
 	if len(a) != len(b) {
 		return false
@@ -955,7 +970,11 @@ func sigRules(w *World, r *Report, prop string) {
 					r.Fail(prop+"-B7", cons, cs[i].at, "in the reference tree the function is left on one side of this decision (a guard that rejects, an error exit); in this tree that side falls through into the code the guard protected, while the other side is unchanged: the `return` was removed or moved")
 					continue
 				}
-				if !eqSet(rs[i].T, rs[i].F) && eqSet(cs[i].T, rs[i].F) && eqSet(cs[i].F, rs[i].T) {
+				// accessor calls (msg.Type(), x.GetName()) are part of evaluating the next operand of a short-circuit
+				// chain, not an effect of the decision: a compound condition moved into a named boolean changes where they
+				// sit without changing any outcome
+				rT, rF, cT, cF := dropAccessors(rs[i].T), dropAccessors(rs[i].F), dropAccessors(cs[i].T), dropAccessors(cs[i].F)
+				if !eqSet(rT, rF) && eqSet(cT, rF) && eqSet(cF, rT) {
 					r.Fail(prop+"-B1", cons, cs[i].at, fmt.Sprintf("the two sides of this decision are exchanged with respect to the reference tree: what ran only when the condition held (%s) now runs only when it does not, and vice versa (%s) — the test was negated or its bodies swapped", clip(strings.Join(rs[i].T, ", "), 120), clip(strings.Join(rs[i].F, ", "), 120)))
 				} else {
 					r.OK(prop+"-B1", cons, cs[i].at, "same polarity as the reference")
